@@ -99,6 +99,8 @@ def insert (c : Cfg) (k v : Nat) : Cfg :=
 def remove (c : Cfg) (k : Nat) : Cfg :=
   { setD c k none with slots := c.slots.map fun s => if s = some k then none else s }
 
+def addJ (c : Cfg) (e : Ev) : Cfg := { c with journal := c.journal ++ [e] }
+
 def enterS (m : Mode) (c : Cfg) : Cfg :=
   { c with spc := match m with | .asIs => .s2 | .fixed => .f2 }
 
@@ -182,7 +184,7 @@ def stepR (c : Cfg) (t : Nat) : Cfg :=
   | .a12 =>
     match r.i with
     | some v =>
-      { retR c t { r with nstart := r.nstart + 1 } with journal := c.journal ++ [.start v t] }
+      addJ (retR c t { r with nstart := r.nstart + 1 }) (.start v t)
     | none => retR c t r
   | .r2 => setR c t { r with pc := .r3 }
   | .r3 => setR (remove c t) t { r with pc := .r4, i := c.d t }
@@ -193,7 +195,7 @@ def stepR (c : Cfg) (t : Nat) : Cfg :=
   | .r5 =>
     match r.i with
     | some v =>
-      { retR c t { r with nstop := r.nstop + 1 } with journal := c.journal ++ [.stop v (some t)] }
+      addJ (retR c t { r with nstop := r.nstop + 1 }) (.stop v (some t))
     | none => retR c t r
   | .done => c
 
@@ -217,13 +219,14 @@ def run (m : Mode) (c : Cfg) : List Tid → Cfg
   | [] => c
   | t :: ts => run m (step m c t) ts
 
+def mkR : Option (List ROp) → RThread
+  | some ops => { ops := ops, pc := initOps ops }
+  | none => {}
+
 /-- request threads `0 .. scripts.length-1` with the given scripts; the stopper calls `stop()`
     `nstops` times. -/
 def init (m : Mode) (scripts : List (List ROp)) (nstops : Nat) : Cfg :=
-  let c : Cfg := { rs := fun j => match scripts[j]? with
-                                  | some ops => { ops := ops, pc := initOps ops }
-                                  | none => {},
-                   nr := scripts.length }
+  let c : Cfg := { rs := fun j => mkR scripts[j]?, nr := scripts.length }
   match nstops with
   | 0 => c
   | n + 1 => enterS m { c with scalls := n }
